@@ -1257,6 +1257,36 @@ def stage_burst(ctx, n):
             ov = [json.loads(l) for l in f if '"Overshoot"' in l]
         if ctx.prop == "C04":
             ctx.samples.append({"kind": "exact overshoot under the controller", "events": ov[:3]})
+    if ctx.prop == "C09":
+        # one maintenance run is bounded whatever the other threads do: scaled queues (flush point 2,
+        # 3 read slots, 4 write slots), four inserting threads, the thread inside maintenance gets one
+        # step whenever all the others wait for room; the others may complete at most
+        # (MAX_SYNC_REPEATS + 1) rounds x (queue lengths) + the queues + one each before it is out again
+        name = "cs_feed"
+        beh = os.path.join(ctx.wd, name + ".beh.ndjson")
+        fl, rs, ws, nthreads = 2, 3, 4, 4
+        budget = (4 + 1) * (rs + ws) + (rs + ws) + nthreads
+        with open(beh, "w") as f:
+            for i in range(3 if ctx.tier == "quick" else 20):
+                progs = [[{"op": "Insert", "k": (t * 7 + j) % 6 + 1, "v": (t + 1) * 100000 + j, "w": 1} for j in range(120)]
+                         for t in range(nthreads)]
+                f.write(json.dumps({"id": i, "cfg": {"kind": "sync", "cap": 3 + i, "ttl": -1, "tti": -1, "weigher": False,
+                                                     "hasher": "id", "nkeys": 6, "lean": True},
+                                    "progs": progs, "sched": [], "seed": ctx.seed * 37 + i, "scaled": [fl, rs, ws],
+                                    "policy": "starve_maint", "budget": budget}) + "\n")
+        trace3 = os.path.join(ctx.wd, name + ".trace.ndjson")
+        hr = V.harness(["sched", beh, trace3], timeout=1800)
+        if hr.returncode not in (0, 3):
+            with open(trace3, "a") as f:
+                f.write(json.dumps({"ev": "Crash", "rc": hr.returncode}) + "\n")
+        st, viol, drift = conc_trace_check(ctx, name, trace3, [ctx.prop], threads=nthreads)
+        ctx.events += st["events"]
+        ctx.nontrivial += st["nt"].get(ctx.prop, 0)
+        bad = conc_verdict(ctx, name, trace3, beh, viol)
+        ctx.traces_ok += st["behaviours"] - len(bad)
+        with open(trace3) as f:
+            ctx.samples.append({"kind": "maintenance runs beside writers that keep the queue full",
+                                "events": [json.loads(l) for l in f if '"MaintRun"' in l][:3]})
 
 
 def run_conc_property(ctx):
